@@ -316,11 +316,15 @@ func (p *parser) parseScheduleEvent(pos *Pos, n *yaml.Node) *ScheduledEvent {
 		m := p.parseMapping("element of \"schedule\" section", c, false, true)
 		if len(m) != 1 || m[0].id != "cron" {
 			p.error(c, "element of \"schedule\" section must be mapping and must contain one key \"cron\"")
-			continue
 		}
-		s := p.parseString(m[0].val, false)
-		if s != nil {
-			cron = append(cron, s)
+		// Check "cron" value even if the element contains unexpected keys
+		for _, kv := range m {
+			if kv.id != "cron" {
+				continue
+			}
+			if s := p.parseString(kv.val, false); s != nil {
+				cron = append(cron, s)
+			}
 		}
 	}
 
